@@ -75,13 +75,14 @@ var gtBigint = map[string]struct {
 	"One": {nil, "*big.Int"}, "Zero": {nil, "*big.Int"}, "Clone": {[]string{"*big.Int"}, "*big.Int"},
 	"Equal": {[]string{"*big.Int", "*big.Int"}, "bool"}, "EqualInt64": {[]string{"*big.Int", "int"}, "bool"},
 	"IsZero": {[]string{"*big.Int"}, "bool"}, "IsNonZero": {[]string{"*big.Int"}, "bool"},
+	"Pow2": {[]string{"uint"}, "*big.Int"},
 }
 
 // math/big value-producing methods (the receiver's old value is irrelevant) and observers
-var gtBigValue = map[string]bool{"Add": true, "Sub": true, "Mul": true, "Or": true, "Lsh": true}
+var gtBigValue = map[string]bool{"Add": true, "Sub": true, "Mul": true, "Or": true, "Lsh": true, "Rsh": true}
 
 func gtBigArgs(m string) []string {
-	if m == "Lsh" {
+	if m == "Lsh" || m == "Rsh" {
 		return []string{"*big.Int", "uint"}
 	}
 	return []string{"*big.Int", "*big.Int"}
@@ -241,6 +242,11 @@ func (t *gotr) expr(e ast.Expr) (string, string) {
 			if xt == yt && (xt == "int" || xt == "uint") {
 				op := map[token.Token]string{token.LSS: "<", token.LEQ: "≤", token.GTR: ">", token.GEQ: "≥"}[v.Op]
 				return "(decide (" + x + " " + op + " " + y + "))", "bool"
+			}
+		case token.QUO:
+			// unsigned division by a positive literal (signed division truncates toward zero: not supported)
+			if xt == "uint" && isLit(v.Y) && Src(t.fset, v.Y) != "0" {
+				return "(" + x + " / " + y + ")", "uint"
 			}
 		case token.ADD, token.SUB:
 			// unsigned subtraction would need truncation: only int
